@@ -20,6 +20,7 @@ struct Plan {
   randoms: u64,
   nest3: u64,
   opchains: u64,
+  strings: u64,
   corpus: u64,
   mutants: u64,
   lsp: u64,
@@ -29,9 +30,9 @@ fn plan(tier: &str, corpus: &Corpus) -> Plan {
   let t = exprgen::triple_count() as u64;
   let nfiles = corpus.all().len() as u64;
   if tier == "thorough" {
-    Plan { decls: 600_000, triples: t * 18, randoms: 4_000_000, nest3: exprgen::nest3_count() as u64 * 3, opchains: 6_000_000, corpus: nfiles * WIDTHS.len() as u64, mutants: 1_500_000, lsp: nfiles }
+    Plan { decls: 600_000, triples: t * 18, randoms: 4_000_000, nest3: exprgen::nest3_count() as u64 * 3, opchains: 6_000_000, strings: exprgen::string_literal_count(false) as u64, corpus: nfiles * WIDTHS.len() as u64, mutants: 1_500_000, lsp: nfiles }
   } else {
-    Plan { decls: 30_000, triples: t * 2, randoms: 120_000, nest3: exprgen::nest3_count() as u64, opchains: 300_000, corpus: nfiles * 2, mutants: 30_000, lsp: 12 }
+    Plan { decls: 30_000, triples: t * 2, randoms: 120_000, nest3: exprgen::nest3_count() as u64, opchains: 300_000, strings: exprgen::string_literal_count(false) as u64, corpus: nfiles * 2, mutants: 30_000, lsp: 12 }
   }
 }
 
@@ -74,6 +75,16 @@ fn gen_case(seed: u64, i: u64, p: &Plan, corpus: &Corpus) -> (String, String, St
     return ("operator-tree".into(), label, exprgen::wrap_in_module(&e, style), *rng.pick(WIDTHS));
   }
   k -= p.opchains;
+  if k < p.strings {
+    let lit = exprgen::string_literal(k as usize, false);
+    let e = match k % 3 {
+      0 => lit.clone(),
+      1 => format!("{lit} :: x"),
+      _ => format!("f({lit}, {lit})"),
+    };
+    return ("string-literal".into(), format!("literal {k}"), exprgen::wrap_in_module(&e, k as usize), WIDTHS[k as usize % WIDTHS.len()]);
+  }
+  k -= p.strings;
   if k < p.corpus {
     let f = all[(k % all.len() as u64) as usize];
     let w = WIDTHS[((k / all.len() as u64) as usize) % WIDTHS.len()];
@@ -92,7 +103,7 @@ fn gen_case(seed: u64, i: u64, p: &Plan, corpus: &Corpus) -> (String, String, St
 }
 
 fn total(p: &Plan) -> u64 {
-  p.decls + p.triples + p.randoms + p.nest3 + p.opchains + p.corpus + p.mutants + p.lsp
+  p.decls + p.triples + p.randoms + p.nest3 + p.opchains + p.strings + p.corpus + p.mutants + p.lsp
 }
 
 fn lsp_format(name: &str, text: &str) -> Result<Option<String>, String> {
@@ -271,7 +282,7 @@ fn main() {
     }
   }
   run.distinct_nontrivial = (triples_seen.len() + modules_seen.len()) as u64;
-  run.rule = "inputs: every (outer construct, operand position, inner construct, with/without explicit parentheses) triple from exprgen wrapped in a module, random nestings of depth 2-4, every systematic depth-3 nesting (outer, middle, inner, both parenthesisation flags), random fully parenthesised operator trees of depth 2-5 (binary / unary / member / call / if / lambda / tuple / match nodes), every tests/*.sam and std/*.sam, token/range mutants of those that still parse, and the LSP format route; each at one of the widths {1,20,40,80,100,200}; non-trivial = distinct triple label or distinct module text that parses without syntax errors (inputs with syntax errors are outside the property and only counted)".into();
+  run.rule = "inputs: every (outer construct, operand position, inner construct, with/without explicit parentheses) triple from exprgen wrapped in a module, random nestings of depth 2-4, every systematic depth-3 nesting (outer, middle, inner, both parenthesisation flags), random fully parenthesised operator trees of depth 2-5 (binary / unary / member / call / if / lambda / tuple / match nodes), every string literal made of up to three atoms (escape sequences, quote, backslash, backtick, `$`, `{`, letters that follow a backslash, non-ASCII), every tests/*.sam and std/*.sam, token/range mutants of those that still parse, and the LSP format route; each at one of the widths {1,20,40,80,100,200}; non-trivial = distinct triple label or distinct module text that parses without syntax errors (inputs with syntax errors are outside the property and only counted)".into();
   run.cov("cases_per_generator_total_and_valid", json!(per_gen.iter().map(|(k, v)| (k.clone(), json!({"total": v.0, "syntactically_valid": v.1}))).collect::<BTreeMap<_, _>>()));
   run.cov("distinct_triples_exercised", json!(triples_seen.len()));
   run.cov("triple_space", json!(exprgen::triple_count()));
